@@ -35,7 +35,9 @@ RULE = (
     "spelling, out-of-zone and over-long names) x 8 types (A NS CNAME SOA NSEC RRSIG(A|CNAME|NSEC) TXT DNAME) x 4 value ids "
     "x boundary TTLs {0,1,60,300,3600,2^31-1,2^32-1}; 0..25 operations (add/replace/delete/delete_exact in every argument "
     "form, update_serial with increments and absolute values around 0, 2^31, 2^32, get/name_exists/get_node/changed/iterate, "
-    "empty rdatasets and RRsets as arguments (1 in 40), "
+    "empty rdatasets and RRsets as arguments (1 in 40), owners as text, types as mnemonic / enum member / bool, GenericRdata twins, "
+    "default and keyword argument forms, the rdataset object just read handed back as argument, replacement writers, a second "
+    "transaction on the committed zone, zones of 260-520 extra owners (1 in 150), "
     "mid-history commit/rollback, hook vetoes), deletions aimed at existing content with probability 0.7; every history "
     "is also aborted after every operation index (raise in the body / raising check hook / explicit rollback, rotating); "
     "a malformed stream mutates argument lists (surplus, missing, wrong kind, wrong class, huge TTL, bad type codes, empty "
